@@ -131,6 +131,10 @@ def install_env(ctx, eng, faults=True, fail_only=None):
     for nm in ("allocate_file", "copy_permissions", "copy_timestamps", "copy_owner", "sync", "copy_node"):
         S(r"^(libfs::)?%s$" % nm, env.fallible(nm, err_ty="libfs::Error", argsel=fid))
 
+    # std equivalents of the libfs helpers (an edit that calls std directly must produce the same events)
+    S(r"^(std::fs::)?File::(sync_all|sync_data)$", env.fallible("sync", err_ty="std::io::Error", argsel=fid))
+    S(r"^(std::fs::)?File::set_len$", env.fallible("allocate_file", err_ty="std::io::Error", argsel=fid))
+
     # ---- std::fs
     def s_open(kind):
         def h(eng, st, callee, args, dty):
